@@ -149,6 +149,117 @@ def shard_selection(ctx, part, nparts):
                 ctx.report(spec, problems)
 
 
+def shard_selection_orders(ctx):
+    """The choice for (base name, operation) must not depend on which operations were asked
+    before: every permutation of the four operations, repeated, for names with several candidates."""
+    import iodata.api as api
+    from iodata.utils import FileFormatError
+
+    modules = dict(api.FORMAT_MODULES)
+    select = getattr(api, "_select_format_module", None)
+    if select is None:
+        ctx.skipped["no_select_entry_point"] += 1
+        return
+    root = corpus_dir()
+    names = candidate_names(modules, sorted(os.listdir(root)) if root else [])
+    multi = [n for n in names if any(
+        model_select(modules, n, op, None)[0] == "one_of" and len(model_select(modules, n, op, None)[1]) >= 2 for op in OPS)]
+    multi += ["name.xyz", "mol.fchk", "mol.unknown"]
+    for basename in multi:
+        for perm in itertools.permutations(OPS):
+            spec = {"kind": "select_order", "name": basename, "order": list(perm)}
+            problems = []
+            for op in list(perm) + list(perm):
+                want = model_select(modules, basename, op, None)
+                try:
+                    got = ("module", select("d/" + basename, op, None).__name__.split(".")[-1])
+                except FileFormatError:
+                    got = ("error",)
+                ok = (want[0] == "error" and got[0] == "error") or (want[0] == "one_of" and got[0] == "module" and got[1] in want[1])
+                if not ok:
+                    problems.append(Problem("C17/select/depends_on_earlier_calls",
+                                            f"{basename!r}: after operations {perm}, {op} -> {got}, model allows {want}"))
+                    break
+            ctx.record(spec, True, ["select_order"])
+            ctx.report(spec, problems)
+    # names never seen before (cold caches), one per permutation of the operations: the module
+    # chosen for an operation must be the same for every member of a family of names that match
+    # the same patterns, whatever was asked before
+    families = ["POSCAR_{}.xyz", "x{}.cp2k.out", "FCIDUMP{}.molden", "CHGCAR{}.cube", "LOCPOT{}.fchk",
+                "POSCAR{}.pdb", "a{}.molden.input", "FCIDUMP_{}.xyz", "AECCAR{}.sdf", "plain{}.xyz"]
+    for family in families:
+        choices = {op: set() for op in OPS}
+        for k, perm in enumerate(itertools.permutations(OPS)):
+            name = family.format(f"q{k}")
+            for op in list(perm) + list(reversed(perm)):
+                try:
+                    choices[op].add(select(name, op, None).__name__.split(".")[-1])
+                except FileFormatError:
+                    choices[op].add(None)
+        spec = {"kind": "select_family", "family": family}
+        problems = []
+        for op, got in choices.items():
+            if len(got) > 1:
+                problems.append(Problem("C17/select/depends_on_earlier_calls",
+                                        f"names like {family!r}: {op} selects {sorted(map(str, got))} depending on the operations asked before"))
+        ctx.record(spec, True, ["select_family"])
+        ctx.report(spec, problems)
+
+
+def shard_guaranteed_generated(ctx, max_examples):
+    """Guaranteed attributes on files generated by the spec writers (incl. minimal ones)."""
+    import importlib
+
+    from hypothesis import strategies as st2
+
+    from iodata import load_many, load_one
+    from iodata.api import FORMAT_MODULES
+
+    from ..oracles.specwriters import selftest as WSELF
+    from ..runner import drive
+
+    tmpdir = ctx.tmpdir
+    for fmt in WSELF.available():
+        mod = importlib.import_module(f"ivp.oracles.specwriters.{fmt}")
+        fmod = FORMAT_MODULES.get(mod.FORMAT)
+        if fmod is None:
+            continue
+
+        def body(spec, mod=mod, fmod=fmod, fmt=fmt):
+            model = mod.build(spec)
+            if not mod.core(spec, model):
+                return [], False, [f"generated:{fmt}:noncore"]
+            path = os.path.join(tmpdir, mod.FILENAME)
+            with open(path, "w") as fh:
+                fh.write(mod.write(model))
+            kwargs = getattr(mod, "load_kwargs", lambda m: {})(model)
+            problems = []
+            try:
+                with warnings.catch_warnings(record=True):
+                    warnings.simplefilter("always")
+                    loaded = []
+                    try:
+                        loaded.append(("load_one", load_one(path, **kwargs)))
+                    except Exception:
+                        pass
+                    if hasattr(fmod, "load_many"):
+                        try:
+                            loaded += [("load_many", fr) for fr in list(load_many(path, **kwargs))[:2]]
+                        except Exception:
+                            pass
+            finally:
+                os.remove(path)
+            for op, data in loaded:
+                for name in getattr(getattr(fmod, op), "guaranteed", []):
+                    if getattr(data, name, None) is None:
+                        problems.append(Problem(f"C17/guaranteed/{fmt}/{name}",
+                                                f"generated file: {fmt}.{op} guarantees {name}, but it is None"))
+            return problems, bool(loaded), [f"generated:{fmt}"]
+
+        drive(ctx, mod.st_model(False).map(lambda s, fmt=fmt: dict(s, fmt=fmt)), body, max_examples, name=f"gen_{fmt}")
+    del st2
+
+
 def shard_public_selection(ctx):
     """The same model through the public functions only (outcome classes and audit events)."""
     from iodata import dump_many, dump_one, load_many, load_one
@@ -227,7 +338,7 @@ def shard_declared_names(ctx):
                 ctx.report(spec, problems)
 
 
-def shard_guaranteed(ctx, part, nparts):
+def shard_guaranteed(ctx, part, nparts, only_file=None):
     from iodata import load_many, load_one
     from iodata.api import FORMAT_MODULES
 
@@ -239,9 +350,12 @@ def shard_guaranteed(ctx, part, nparts):
     files = sorted(f for f in glob.glob(os.path.join(root, "*")) if os.path.isfile(f))
     limit = 10**9 if ctx.tier == "thorough" else 400000
     for idx, path in enumerate(files):
-        if idx % nparts != part or os.path.getsize(path) > limit:
-            continue
         base = os.path.basename(path)
+        if only_file is not None:
+            if base != only_file:
+                continue
+        elif idx % nparts != part or os.path.getsize(path) > limit:
+            continue
         for op in ("load_one", "load_many"):
             want = model_select(modules, base, op, None)
             fmtargs = [None]
@@ -310,8 +424,10 @@ def shard_required_enforced(ctx):
 
 
 def shards(tier, seed):
+    big = tier == "thorough"
     out = [("declared_names", "shard_declared_names", {}), ("required_enforced", "shard_required_enforced", {}),
-           ("public_selection", "shard_public_selection", {})]
+           ("public_selection", "shard_public_selection", {}), ("selection_orders", "shard_selection_orders", {}),
+           ("guaranteed_generated", "shard_guaranteed_generated", {"max_examples": 100 if big else 12})]
     for part in range(6):
         out.append((f"selection{part}", "shard_selection", {"part": part, "nparts": 6}))
     for part in range(6):
@@ -342,9 +458,13 @@ def replay(entry):
         elif kind == "declared":
             shard_declared_names(ctx)
         elif kind == "guaranteed":
-            shard_guaranteed(ctx, 0, 1)
+            shard_guaranteed(ctx, 0, 1, only_file=spec.get("file"))
         elif kind == "required":
             shard_required_enforced(ctx)
+        elif kind in ("select_order", "select_family"):
+            shard_selection_orders(ctx)
+        elif "fmt" in spec:
+            shard_guaranteed_generated(ctx, 30)
         want = entry.get("bucket")
         return [Problem(b, f["message"]) for b, f in ctx.failures.items() if want is None or b == want]
     finally:
